@@ -20,3 +20,40 @@ pub open spec fn wf_event(b: Seq<u8>) -> bool {
     &&& wf_tags(ev_tags(b))
     &&& 144 + ev_tags_len(b) + 4 + ev_content_len(b) == b.len()
 }
+// the packed bytes of an event with the given fields (padding bytes 6,7 are zero)
+pub open spec fn event_bytes(id: Seq<u8>, kind: u16, pubkey: Seq<u8>, sig: Seq<u8>, tags: Seq<u8>, created_at: u64, content: Seq<u8>) -> Seq<u8> {
+    bytes32((144 + tags.len() + 4 + content.len()) as u32) + bytes16(kind) + seq![0u8, 0u8] + bytes64(created_at)
+        + id + pubkey + sig + tags + bytes32(content.len() as u32) + content
+}
+pub proof fn lemma_event_bytes_fields(id: Seq<u8>, kind: u16, pubkey: Seq<u8>, sig: Seq<u8>, tags: Seq<u8>, created_at: u64, content: Seq<u8>)
+    requires id.len() == 32, pubkey.len() == 32, sig.len() == 64, wf_tags(tags), 144 + tags.len() + 4 + content.len() <= u32::MAX
+    ensures ({
+        let b = event_bytes(id, kind, pubkey, sig, tags, created_at, content);
+        &&& b.len() == 144 + tags.len() + 4 + content.len()
+        &&& wf_event(b)
+        &&& ev_id(b) == id && ev_kind(b) == kind && ev_pubkey(b) == pubkey && ev_sig(b) == sig
+        &&& ev_tags(b) == tags && ev_created_at(b) == created_at && ev_content(b) == content
+        &&& b[6] == 0 && b[7] == 0
+    })
+{
+    let b = event_bytes(id, kind, pubkey, sig, tags, created_at, content);
+    let total = (144 + tags.len() + 4 + content.len()) as u32;
+    lemma_ne32_bytes32(total);
+    lemma_ne16_bytes16(kind);
+    lemma_ne64_bytes64(created_at);
+    lemma_ne32_bytes32(content.len() as u32);
+    assert(b.subrange(0, 4) =~= bytes32(total));
+    assert(b.subrange(4, 6) =~= bytes16(kind));
+    assert(b.subrange(8, 16) =~= bytes64(created_at));
+    assert(b.subrange(16, 48) =~= id);
+    assert(b.subrange(48, 80) =~= pubkey);
+    assert(b.subrange(80, 144) =~= sig);
+    // tags length field = first two bytes of the tags section
+    assert(b.subrange(144, 146) =~= tags.subrange(0, 2));
+    assert(u16_at(tags, 0) == tags.len());
+    assert(u16_at(b, 144) == tags.len());
+    assert(b.subrange(144, 144 + tags.len() as int) =~= tags);
+    let t = tags.len() as int;
+    assert(b.subrange(144 + t, 144 + t + 4) =~= bytes32(content.len() as u32));
+    assert(b.subrange(144 + t + 4, 144 + t + 4 + content.len()) =~= content);
+}
